@@ -130,3 +130,93 @@ func c28R78(c *Ctx, ws, bind *core.FuncInfo, fSeq, fPkt *types.Var, mPacketize *
 		}
 	}
 }
+
+// c28R9: "a sample reporting N previously dropped packets first skips N sequence numbers": the skip belongs to THAT sample
+// only if no other sample's packets are numbered in between, i.e. the NextSequenceNumber loop, SkipSamples and Packetize of
+// one WriteSample run in one critical section of the track's sample mutex.
+//
+// c28R10: the timeline lives in the packetizer (timestamp, sequencer): TrackLocalStaticSample.packetizer is written only
+// in Bind, and only with a non-nil value; nothing resets it (an Unbind that drops it makes the next Bind start a new
+// timeline while the remainder and the drift accounting go on).
+func c28R910(c *Ctx, ws, bind *core.FuncInfo, fPkt *types.Var, mPacketize, mNext *types.Func) {
+	r := c.R
+	{
+		const rule = "C28.R9"
+		g := c.P.GraphOf(ws)
+		info := g.Info
+		pos := c.P.Pos(ws.Decl.Pos())
+		var pk, nx []int
+		for _, n := range g.Nodes {
+			if n.Ast == nil {
+				continue
+			}
+			core.InspectShallow(n.Ast, func(x ast.Node) bool {
+				call, ok := x.(*ast.CallExpr)
+				if !ok {
+					return true
+				}
+				if sel, ok := ast.Unparen(call.Fun).(*ast.SelectorExpr); ok {
+					if s := info.Selections[sel]; s != nil {
+						switch s.Obj() {
+						case types.Object(mPacketize):
+							pk = append(pk, n.ID)
+						case types.Object(mNext):
+							nx = append(nx, n.ID)
+						}
+					}
+				}
+				return true
+			})
+		}
+		if len(pk) != 1 || len(nx) == 0 {
+			r.Undecided(rule, "WriteSample|skip-and-packetize-atomic", pos, sprintf("expected one Packetize call and the NextSequenceNumber skip in WriteSample's own body, found %d / %d", len(pk), len(nx)))
+		} else {
+			li := core.Locks(g)
+			inst := ""
+			for in := range li.In[pk[0]] {
+				inst = in
+			}
+			ok, why := inst != "", "Packetize runs without a lock held"
+			if inst != "" {
+				for _, n := range nx {
+					if o, w := c24SameRegion(g, li, n, pk[0], inst); !o {
+						ok, why = false, w
+					}
+				}
+			}
+			r.Cells++
+			r.Check(ok, rule, "WriteSample|skip-and-packetize-atomic", c.P.Pos(g.PosOf(nx[0])), "the sequence-number skip and Packetize share one critical section of "+inst,
+				"the NextSequenceNumber skip for reported drops and the Packetize call of the same sample are not in one critical section ("+why+"): with two writers the gap lands in front of another sample's packets and the sample that reported the loss follows without a gap")
+		}
+	}
+	{
+		const rule = "C28.R10"
+		n := 0
+		for _, fi := range c.P.AllFuncs() {
+			if fi.Decl == nil || fi.Decl.Body == nil || fi.Pkg != ws.Pkg {
+				continue
+			}
+			info := fi.Pkg.TypesInfo
+			ast.Inspect(fi.Decl.Body, func(x ast.Node) bool {
+				as, ok := x.(*ast.AssignStmt)
+				if !ok || len(as.Lhs) != len(as.Rhs) {
+					return true
+				}
+				for i, l := range as.Lhs {
+					if core.FieldOf(info, l) != fPkt {
+						continue
+					}
+					n++
+					inBind := fi == bind
+					isNil := core.IsNilIdent(info, as.Rhs[i])
+					r.Check(inBind && !isNil, rule, sprintf("%s|packetizer-write#%d", fi.Name(), n), c.P.Pos(as.Pos()), "the packetizer is installed in Bind",
+						"TrackLocalStaticSample.packetizer is written outside Bind or reset to nil: the next Bind builds a new packetizer, so timestamps (and a configured sequence number) restart instead of continuing at initial + total duration")
+				}
+				return true
+			})
+		}
+		if n == 0 {
+			r.Undecided(rule, "packetizer-writes", "-", "no write of TrackLocalStaticSample.packetizer found")
+		}
+	}
+}
